@@ -79,25 +79,24 @@ class PassHang(BaseException):
 
 @contextlib.contextmanager
 def time_limit(seconds):
-    """SIGALRM guard around the code under test (main thread of the shard process).
+    """SIGVTALRM guard around the code under test (main thread of the shard process).
 
     The timer keeps firing every 50 ms after the limit: an exception raised by a signal handler is
     silently dropped when the handler happens to run inside a gc callback (Hypothesis installs one)
     or a finalizer, which is likely while a runaway rewrite allocates ops as fast as it can."""
     def on_alarm(signum, frame):
         raise PassHang()
-    old = signal.signal(signal.SIGALRM, on_alarm)
-    signal.setitimer(signal.ITIMER_REAL, seconds, 0.05)
+    # CPU-time timer (a runaway loop burns CPU): a loaded machine cannot cause a false "hang"
+    old = signal.signal(signal.SIGVTALRM, on_alarm)
+    signal.setitimer(signal.ITIMER_VIRTUAL, seconds, 0.05)
     try:
         try:
             yield
         finally:
-            signal.setitimer(signal.ITIMER_REAL, 0, 0)
-    except PassHang:
-        raise
+            signal.setitimer(signal.ITIMER_VIRTUAL, 0, 0)
     finally:
-        signal.setitimer(signal.ITIMER_REAL, 0, 0)
-        signal.signal(signal.SIGALRM, old)
+        signal.setitimer(signal.ITIMER_VIRTUAL, 0, 0)
+        signal.signal(signal.SIGVTALRM, old)
 
 
 # ----------------------------------------------------------------------------------------------
@@ -274,7 +273,7 @@ def oracle(recipe):
     except PassHang:
         HANGS[hang_class] = HANGS.get(hang_class, 0) + 1
         sig = dict(base, check="hang", multi_zero_dst=int(fi["multi_zero_dst"]))
-        return "ok", [(sig, f"pass did not return within {PASS_TIME_LIMIT_S}s on\n{describe(recipe)}")], feats
+        return "ok", [(sig, f"pass did not return within {PASS_TIME_LIMIT_S}s of CPU time on\n{describe(recipe)}")], feats
     except Exception as e:  # crash inside the pass on verified input
         sig = dict(base, check="crash", exc=type(e).__name__, where=innermost(e),
                    multi_zero_dst=int(fi["multi_zero_dst"]))
